@@ -88,6 +88,7 @@ def tail_bound(spectra, ranks):
     tot = 0.0
     for k, s in enumerate(spectra):
         r = ranks[k + 1]
+        r = len(s) if r == np.inf else int(r)
         tot += float(np.sum(s[r:] ** 2))
     return np.sqrt(tot)
 
@@ -108,7 +109,7 @@ def cap_of(case, d):
         return np.inf, [np.inf] * (d + 1)
     if isinstance(c, list):
         lst = [(np.inf if v is None else int(v)) for v in c]
-        return lst, lst
+        return lst, list(lst)          # (the list handed to the library, an independent copy of the requested caps)
     return int(c), [1] + [int(c)] * (d - 1) + [1]
 
 
@@ -177,6 +178,10 @@ def body_array(case):
         lab.add('combined')
     if case['cap'] is not None and th == 0:
         lab.add('cap_only')
+        # cap only: the bound of the statement, for the requested rank (a result cut harder than requested gets no weaker bound)
+        breq = tail_bound(spectra, caps)
+        require(err <= breq + SLACK * max(nx, 1e-300) + 1e-300, 'quasi_optimal',
+                'error %.3e exceeds the TT-SVD bound %.3e for the requested max_rank %s (achieved ranks %s)' % (err, breq, case['cap'], t.ranks))
     return lab
 
 
@@ -213,6 +218,12 @@ def body_cores(case):
     nx = float(np.linalg.norm(x))
     cap, caps = cap_of(case, d)
     entry = case['entry']
+    if isinstance(cap, list) and spec['seed'] % 2 == 0:
+        # the caller's list of caps has been used before, on a train of rank one (a loop `for t in trains: t.ortho(max_rank=caps)`):
+        # what is requested from the call below is still the list the caller wrote
+        warm = TT([np.array(c[:1, :, :, :1]) for c in cores])
+        warm.ortho(max_rank=cap)
+        warm.ortho_left(max_rank=cap)
     if entry == 'ctor':
         t = TT([c.copy() for c in cores], max_rank=cap)
     else:
@@ -265,7 +276,9 @@ def body_cores(case):
     if entry not in ('left_only', 'right_only'):
         y = dense.contract(t.cores)
         err = float(np.linalg.norm(y - x))
-        bound = tail_bound(spectra, t.ranks)
+        # the bound of the statement: best rank-r errors of the unfoldings for the REQUESTED ranks r (a result that is cut harder than
+        # requested does not get a weaker bound)
+        bound = tail_bound(spectra, caps)
         if bound > 1e-6 * nx:
             target(err / bound, 'error / quasi-optimality bound')
         require(err <= bound + SLACK * max(nx, 1e-300), 'quasi_optimal',
